@@ -4,7 +4,7 @@
    Independent of the code's own table. *)
 From Coq Require Import String ZArith List Bool Reals.
 From Flocq Require Import Core BinarySingleNaN Binary Bits.
-From Typify Require Import Algo.IntSelect.
+From Typify Require Import Algo.IntSelect Algo.IntSelectZ.
 Import ListNotations.
 Open Scope string_scope.
 Open Scope Z_scope.
@@ -76,3 +76,47 @@ Definition osafe (o : option f64) : Prop := forall x, o = Some x -> safe x.
 
 Definition safe_bounds (b : bounds) : Prop :=
   osafe (b_min b) /\ osafe (b_max b) /\ osafe (b_emin b) /\ osafe (b_emax b).
+
+(* a numeric default the integer-level model can speak about: a finite double
+   with an integer value (any magnitude: it is only ever compared) *)
+Definition safe_default (d : dflt) : Prop :=
+  forall v, d = Some (Some v) -> exists z, exact v z.
+
+(* ---- integer-level vocabulary (model Algo/IntSelectZ.v) ---- *)
+
+(* n is admitted by the four bound keywords.  `multipleOf` can only remove
+   further integers, so every statement "admitted => representable" proved for
+   this predicate holds a fortiori for the admitted set with multipleOf. *)
+Definition ole (o : option Z) (n : Z) : Prop := forall m, o = Some m -> m <= n.
+Definition oge (o : option Z) (n : Z) : Prop := forall m, o = Some m -> n <= m.
+Definition olt (o : option Z) (n : Z) : Prop := forall m, o = Some m -> m < n.
+Definition ogt (o : option Z) (n : Z) : Prop := forall m, o = Some m -> n < m.
+
+Definition admittedZ (b : zbounds) (n : Z) : Prop :=
+  ole (zb_min b) n /\ oge (zb_max b) n /\ olt (zb_emin b) n /\ ogt (zb_emax b) n.
+
+Definition admittedZb (b : zbounds) (n : Z) : bool :=
+  match zb_min b with Some m => m <=? n | None => true end &&
+  match zb_max b with Some m => n <=? m | None => true end &&
+  match zb_emin b with Some m => m <? n | None => true end &&
+  match zb_emax b with Some m => n <? m | None => true end.
+
+(* the four types that cannot hold 0 *)
+Definition nonzero_ty (ty : string) : Prop :=
+  In ty ["::std::num::NonZeroU8"; "::std::num::NonZeroU16"; "::std::num::NonZeroU32"; "::std::num::NonZeroU64"].
+
+Definition oZ_eqb (o : option Z) (z : Z) : bool := match o with Some m => m =? z | None => false end.
+
+(* Finding C10-F6, exactly: `format: uint64`, normalised bounds (-2^63, 2^63) -
+   the doubles of i64::MIN and of i64::MAX, which rounds up - and 2^63 itself
+   admitted (the upper bound is inclusive).  convert_integer matches the int64
+   row and answers i64, which cannot hold 2^63. *)
+Definition known_F6b (fmt : option string) (b : zbounds) : bool :=
+  match fmt with Some f => String.eqb f "uint64" | None => false end
+  && oZ_eqb (znorm_min b) (- 2^63) && oZ_eqb (znorm_max b) (2^63) && admittedZb b (2^63).
+
+Definition Known_F6 (fmt : option string) (b : zbounds) : Prop :=
+  fmt = Some "uint64" /\ znorm_min b = Some (- 2^63) /\ znorm_max b = Some (2^63) /\ admittedZ b (2^63).
+
+Definition no_bounds : zbounds :=
+  {| zb_min := None; zb_max := None; zb_emin := None; zb_emax := None; zb_mult := false |}.
